@@ -1,7 +1,11 @@
+#[cfg(kepler_5_rrss_verif)]
+use crate::verif_seams::HashMap;
+#[cfg(not(kepler_5_rrss_verif))]
+use std::collections::HashMap;
 use std::{
     borrow::{Borrow, Cow},
     cmp::Ordering,
-    collections::{HashMap, VecDeque},
+    collections::VecDeque,
     hash::{Hash, Hasher},
     hint::unreachable_unchecked,
     mem::discriminant,
@@ -206,6 +210,8 @@ impl Array {
     }
 
     fn val_iter(&self) -> impl Iterator<Item = &Val> {
+        #[cfg(kepler_5_rrss_verif)]
+        crate::verif_seams::probe_dict_order("val_iter", self.dict.keys());
         self.arr.iter().chain(self.dict.values())
     }
 
